@@ -10,7 +10,7 @@ from harness.indep import tcpcl_codec as codec
 SESS_MOVES = ['seg_nostart_unknown', 'seg_end_unknown', 'ack_unknown', 'ack_finished', 'ack_own_end', 'ack_own_mid',
               'refuse_unknown', 'refuse_sent_unacked',
               'refuse_own', 'unknown_type', 'xfer_ok', 'xfer_start', 'xfer_mismatch', 'xfer_cont_end', 'ka',
-              'reject_msg', 'term', 'ch_again']
+              'reject_msg', 'term', 'term_twice', 'term_reply', 'ch_again']
 PRE_INIT_MOVES = ['seg', 'ack', 'refuse', 'term', 'ka', 'unknown_type', 'ack_early_own', 'refuse_early_own']
 PRE_CH_MOVES = ['bad_magic', 'bad_version', 'seg_first']
 
@@ -127,6 +127,12 @@ class Adversary(object):
             self.send(codec.enc_reject(1, 3))
         elif name == 'term':
             self.send(codec.enc_sess_term(0, 0))
+        elif name == 'term_twice':
+            # two SESS_TERM in one write (a duplicate)
+            self.send(codec.enc_sess_term(0, 0) + codec.enc_sess_term(0, 0))
+        elif name == 'term_reply':
+            # marked as the reply to a SESS_TERM the victim never sent
+            self.send(codec.enc_sess_term(0, 1))
         elif name == 'ch_again':
             self.send(codec.enc_contact(0))
         elif name == 'seg':
